@@ -3,42 +3,6 @@ From Coq Require Import Lia.
 From Eupsv Require Import Base.Base Base.BaseLemmas Model.Manifest Model.ManifestSpec
   Proofs.ManifestLib Proofs.ManifestMap.
 
-(* ------------------------------------------------------------------ lookups *)
-
-Lemma m_exists1_mget m p v f :
-  m_exists1 m p v f = match mget (mp_map m) f p v with Some _ => true | None => false end.
-Proof.
-  unfold m_exists1, mget, group_val, mgroup, amem.
-  destruct (alookup f (mp_map m)) as [pm|]; [|reflexivity]. destruct (alookup p pm); reflexivity.
-Qed.
-
-Lemma mget_fm_add_set fm inP inV outP c w fl f p k :
-  mget (fm_add fm inP inV outP (Some (c :: w)) fl true) f p k =
-  if str_eqb f fl && str_eqb p inP && str_eqb k inV then Some (outP, c :: w) else mget fm f p k.
-Proof.
-  unfold mget, group_val at 1. rewrite mgroup_fm_add.
-  destruct (str_eqb_spec f fl) as [->|Hf]; cbn [andb]; [|reflexivity].
-  destruct (str_eqb_spec p inP) as [->|Hp]; cbn [andb]; [|reflexivity].
-  destruct (str_eqb_spec k inV) as [->|Hk].
-  - now rewrite alookup_aset_same.
-  - now rewrite alookup_aset_other.
-Qed.
-
-Definition clean (fm : fmap) : Prop := forall f p, mgroup fm f p <> Some [].
-
-Lemma aset_nonnil {V} k (v : V) m : aset k v m <> [].
-Proof. destruct m as [|[k' v'] m]; cbn [aset]; [discriminate|]. destruct (str_eqb k k'); discriminate. Qed.
-
-Lemma clean_fm_add_set fm inP inV outP c w fl :
-  clean fm -> clean (fm_add fm inP inV outP (Some (c :: w)) fl true).
-Proof.
-  intros H f p. rewrite mgroup_fm_add. destruct (str_eqb f fl && str_eqb p inP); [|apply H].
-  intros [= E]. now apply aset_nonnil in E.
-Qed.
-
-Lemma clean_empty : clean [].
-Proof. intros f p. discriminate. Qed.
-
 (* ------------------------------------------------------------------ the rows of a mapping *)
 
 Definition fm_nodup (fm : fmap) : Prop :=
@@ -54,10 +18,10 @@ Proof.
     exfalso. apply H1. change k' with (fst (k', v)). now apply in_map.
 Qed.
 
-Lemma mget_In_rows m f p v q w : mget (mp_map m) f p v = Some (q, w) -> In (f, p, v, q, w) (m_rows m).
+Lemma fm_get_In_rows fm f p v q w : mget fm f p v = Some (q, w) -> In (f, p, v, q, w) (fm_rows fm).
 Proof.
-  unfold mget, group_val, mgroup, m_rows.
-  destruct (alookup f (mp_map m)) as [pm|] eqn:E1; [|discriminate].
+  unfold mget, group_val, mgroup, fm_rows.
+  destruct (alookup f fm) as [pm|] eqn:E1; [|discriminate].
   destruct (alookup p pm) as [vm|] eqn:E2; [|discriminate]. intros E3.
   apply alookup_Some_In in E1, E2, E3.
   apply in_flat_map. exists (f, pm). split; [assumption|].
@@ -65,10 +29,10 @@ Proof.
   apply in_map_iff. exists (v, (q, w)). auto.
 Qed.
 
-Lemma In_rows_mget m f p v q w :
-  fm_nodup (mp_map m) -> In (f, p, v, q, w) (m_rows m) -> mget (mp_map m) f p v = Some (q, w).
+Lemma In_rows_fm_get fm f p v q w :
+  fm_nodup fm -> In (f, p, v, q, w) (fm_rows fm) -> mget fm f p v = Some (q, w).
 Proof.
-  intros [N1 N2] H. unfold m_rows in H.
+  intros [N1 N2] H. unfold fm_rows in H.
   apply in_flat_map in H. destruct H as [[f' pm] [Hf H]].
   apply in_flat_map in H. destruct H as [[p' vm] [Hp H]].
   apply in_map_iff in H. destruct H as [[v' [q' w']] [[= <- <- <- <- <-] Hv]].
@@ -78,15 +42,59 @@ Proof.
   now apply In_NoDup_alookup.
 Qed.
 
+Lemma mget_In_rows m f p v q w : mget (mp_map m) f p v = Some (q, w) -> In (f, p, v, q, w) (m_rows m).
+Proof. apply fm_get_In_rows. Qed.
+
+Lemma In_rows_mget m f p v q w :
+  fm_nodup (mp_map m) -> In (f, p, v, q, w) (m_rows m) -> mget (mp_map m) f p v = Some (q, w).
+Proof. apply In_rows_fm_get. Qed.
+
 Lemma invertible_In m r : forallb invertible_row (m_rows m) = true -> In r (m_rows m) -> invertible_row r = true.
 Proof. intros H. rewrite forallb_forall in H. apply H. Qed.
 
-(* ------------------------------------------------------------------ the fold of inverse *)
+(* ------------------------------------------------------------------ the fold of inverse, on the rows that are kept *)
 
-Definition tgt (r : mrow) : str * str * str := match r with (f, p, v, q, w) => (f, q, w) end.
+Definition lrow := (str * str * str * str * str)%type.
 
-Lemma fold_err R e : fold_left inv_step R (Err e) = Err e.
-Proof. induction R as [|r R IH]; cbn [fold_left]; [reflexivity|]. cbn [inv_step]. apply IH. Qed.
+Definition lives (R : list mrow) : list lrow :=
+  flat_map (fun r => match r with (f, p, v, q, Some w) => [(f, p, v, q, w)] | _ => [] end) R.
+
+Definition inv_stepL (acc : res mapping) (r : lrow) : res mapping :=
+  match acc, r with
+  | Err e, _ => Err e
+  | Ok inv, (f, p, v, q, w) =>
+      if m_exists1 inv q w f then Err Refused else Ok (m_add inv q w (Some p) (Some v) f true)
+  end.
+
+Lemma fold_live R : forall acc, fold_left inv_step R acc = fold_left inv_stepL (lives R) acc.
+Proof.
+  induction R as [|[[[[f p] v] q] [w|]] R IH]; intros acc; cbn [fold_left lives flat_map app]; [reflexivity| |].
+  - change (flat_map _ R) with (lives R). rewrite IH. destruct acc; reflexivity.
+  - change (flat_map _ R) with (lives R). rewrite IH. destruct acc; reflexivity.
+Qed.
+
+Lemma In_lives R f p v q w : In (f, p, v, q, w) (lives R) <-> In (f, p, v, q, Some w) R.
+Proof.
+  unfold lives. rewrite in_flat_map. split.
+  - intros [[[[[f' p'] v'] q'] [w'|]] [Hin H]]; [|destruct H]. destruct H as [[= <- <- <- <- <-]|[]]. exact Hin.
+  - intros H. exists (f, p, v, q, Some w). split; [assumption|now left].
+Qed.
+
+Definition live_ok (r : lrow) : bool :=
+  match r with (f, p, v, q, w) => invertible_row (f, p, v, q, Some w) end.
+
+Lemma lives_ok R : forallb invertible_row R = true -> forallb live_ok (lives R) = true.
+Proof.
+  rewrite !forallb_forall. intros H [[[[f p] v] q] w] Hin. apply In_lives in Hin. exact (H _ Hin).
+Qed.
+
+Lemma lives_app a b : lives (a ++ b) = lives a ++ lives b.
+Proof. unfold lives. apply flat_map_app. Qed.
+
+Definition tgt (r : lrow) : str * str * str := match r with (f, p, v, q, w) => (f, q, w) end.
+
+Lemma fold_err R e : fold_left inv_stepL R (Err e) = Err e.
+Proof. induction R as [|r R IH]; cbn [fold_left]; [reflexivity|]. cbn [inv_stepL]. apply IH. Qed.
 
 Lemma mp_map_inv_add inv f p v q w :
   nonempty p = true -> nonempty v = true -> is_noreinstall (Some v) = false ->
@@ -95,217 +103,209 @@ Proof.
   intros Hp Hv Hn. unfold m_add. rewrite Hn. destruct p; [discriminate|]. reflexivity.
 Qed.
 
-Lemma invertible_parts f p v q w : invertible_row (f, p, v, q, w) = true ->
+Lemma live_parts f p v q w : live_ok (f, p, v, q, w) = true ->
   nonempty p = true /\ nonempty v = true /\ str_eqb v s_any = false /\ str_eqb w s_any = false /\
-  is_noreinstall (Some v) = false /\ (str_eqb q p && str_eqb w v) = false.
+  is_noreinstall (Some v) = false.
 Proof.
-  cbn [invertible_row]. intros H. do 5 (apply andb_true_iff in H; destruct H as [H ?]).
+  cbn [live_ok invertible_row]. intros H. do 4 (apply andb_true_iff in H; destruct H as [H ?]).
   rewrite !negb_true_iff in *. auto 10.
 Qed.
 
+Lemma out_version_nonempty v : nonempty v = true -> out_version (Some v) = Some v.
+Proof. destruct v; [discriminate|reflexivity]. Qed.
+
 Lemma inverse_fold R : forall inv0 inv,
-  forallb invertible_row R = true ->
-  fold_left inv_step R (Ok inv0) = Ok inv ->
-  (forall f q w x, mget (mp_map inv) f q w = Some x <->
-     (mget (mp_map inv0) f q w = Some x \/ exists p v, x = (p, v) /\ In (f, p, v, q, w) R)) /\
-  (clean (mp_map inv0) -> clean (mp_map inv)).
+  forallb live_ok R = true ->
+  fold_left inv_stepL R (Ok inv0) = Ok inv ->
+  forall f q w x, mget (mp_map inv) f q w = Some x <->
+     (mget (mp_map inv0) f q w = Some x \/ exists p v, x = (p, Some v) /\ In (f, p, v, q, w) R).
 Proof.
   induction R as [|r R IH]; intros inv0 inv Hwf Hfold.
-  - cbn [fold_left] in Hfold. injection Hfold as <-. split; [|auto].
+  - cbn [fold_left] in Hfold. injection Hfold as <-.
     intros f q w x. split; [auto|]. intros [H|[p [v [_ []]]]]. exact H.
   - cbn [forallb] in Hwf. apply andb_true_iff in Hwf. destruct Hwf as [Hr HR].
-    destruct r as [[[[f p] v] q] w]. cbn [fold_left inv_step] in Hfold.
+    destruct r as [[[[f p] v] q] w]. cbn [fold_left inv_stepL] in Hfold.
     destruct (m_exists1 inv0 q w f) eqn:Eex; [rewrite fold_err in Hfold; discriminate|].
     rewrite m_exists1_mget in Eex.
-    destruct (invertible_parts _ _ _ _ _ Hr) as [Hp [Hv [_ [_ [Hn _]]]]].
-    destruct (IH _ _ HR Hfold) as [I1 I2]. rewrite mp_map_inv_add in I1, I2 by assumption.
-    destruct v as [|vc vr]; [discriminate|].
-    split.
-    + intros f' q' w' x. rewrite I1, mget_fm_add_set.
-      destruct (str_eqb_spec f' f) as [->|Hf]; cbn [andb].
-      * destruct (str_eqb_spec q' q) as [->|Hq]; cbn [andb].
-        -- destruct (str_eqb_spec w' w) as [->|Hw].
-           ++ split.
-              ** intros [[= <-]|[p' [v' [-> Hin]]]]; right; [exists p, (vc :: vr); split; auto; now left|].
-                 exists p', v'. split; auto. now right.
-              ** intros [H|[p' [v' [-> [[= <- <-]|Hin]]]]].
-                 --- destruct (mget (mp_map inv0) f q w); [discriminate|discriminate].
-                 --- now left.
-                 --- right. eauto.
-           ++ split.
-              ** intros [H|[p' [v' [-> Hin]]]]; [now left|]. right. exists p', v'. split; auto. now right.
-              ** intros [H|[p' [v' [-> [Heq|Hin]]]]]; [now left| inversion Heq; congruence | right; eauto].
-        -- split.
-           ** intros [H|[p' [v' [-> Hin]]]]; [now left|]. right. exists p', v'. split; auto. now right.
-           ** intros [H|[p' [v' [-> [Heq|Hin]]]]]; [now left| inversion Heq; congruence | right; eauto].
-      * split.
-        ** intros [H|[p' [v' [-> Hin]]]]; [now left|]. right. exists p', v'. split; auto. now right.
-        ** intros [H|[p' [v' [-> [Heq|Hin]]]]]; [now left| inversion Heq; congruence | right; eauto].
-    + intros Hc. apply I2. now apply clean_fm_add_set.
+    destruct (live_parts _ _ _ _ _ Hr) as [Hp [Hv [_ [_ Hn]]]].
+    pose proof (IH _ _ HR Hfold) as I1. rewrite mp_map_inv_add in I1 by assumption.
+    intros f' q' w' x. rewrite I1, mget_fm_add, (out_version_nonempty _ Hv).
+    destruct (str_eqb f' f && str_eqb q' q && str_eqb w' w) eqn:Ec.
+    + apply andb_true_iff in Ec. destruct Ec as [Ec E3]. apply andb_true_iff in Ec. destruct Ec as [E1 E2].
+      apply str_eqb_eq in E1, E2, E3. subst f' q' w'.
+      split.
+      * intros [[= <-]|[p' [v' [-> Hin]]]]; right.
+        -- exists p, v. split; [reflexivity|now left].
+        -- exists p', v'. split; [reflexivity|now right].
+      * intros [H|[p' [v' [-> [[= <- <-]|Hin]]]]].
+        -- rewrite H in Eex. discriminate.
+        -- now left.
+        -- right. eauto.
+    + split.
+      * intros [H|[p' [v' [-> Hin]]]]; [now left|]. right. exists p', v'. split; [reflexivity|now right].
+      * intros [H|[p' [v' [-> [Heq|Hin]]]]]; [now left| |right; eauto].
+        exfalso. injection Heq as <- <- <- <- <-. rewrite !str_eqb_refl in Ec. discriminate.
 Qed.
 
 Lemma fold_refused R : forall acc e,
-  (forall e', acc = Err e' -> e' = Refused) -> fold_left inv_step R acc = Err e -> e = Refused.
+  (forall e', acc = Err e' -> e' = Refused) -> fold_left inv_stepL R acc = Err e -> e = Refused.
 Proof.
   induction R as [|r R IH]; intros acc e Hacc H; cbn [fold_left] in H.
   - now apply Hacc.
   - eapply IH; [|exact H]. intros e' He'. destruct acc as [inv|e0].
-    + destruct r as [[[[f p] v] q] w]. cbn [inv_step] in He'.
+    + destruct r as [[[[f p] v] q] w]. cbn [inv_stepL] in He'.
       destruct (m_exists1 inv q w f); congruence.
-    + cbn [inv_step] in He'. injection He' as <-. now apply Hacc.
+    + cbn [inv_stepL] in He'. injection He' as <-. now apply Hacc.
 Qed.
 
 Lemma fold_ok R : forall inv0,
-  forallb invertible_row R = true -> NoDup (map tgt R) ->
+  forallb live_ok R = true -> NoDup (map tgt R) ->
   (forall r, In r R -> match tgt r with (f, q, w) => mget (mp_map inv0) f q w = None end) ->
-  exists inv, fold_left inv_step R (Ok inv0) = Ok inv.
+  exists inv, fold_left inv_stepL R (Ok inv0) = Ok inv.
 Proof.
   induction R as [|r R IH]; intros inv0 Hwf Hnd Hfree; cbn [fold_left]; [eauto|].
   cbn [forallb] in Hwf. apply andb_true_iff in Hwf. destruct Hwf as [Hr HR].
-  destruct r as [[[[f p] v] q] w]. cbn [inv_step].
+  destruct r as [[[[f p] v] q] w]. cbn [inv_stepL].
   pose proof (Hfree _ (or_introl eq_refl)) as H0. cbn [tgt] in H0.
   rewrite m_exists1_mget, H0.
-  destruct (invertible_parts _ _ _ _ _ Hr) as [Hp [Hv [_ [_ [Hn _]]]]].
+  destruct (live_parts _ _ _ _ _ Hr) as [Hp [Hv [_ [_ Hn]]]].
   cbn [map] in Hnd. inversion Hnd as [|? ? Hnin Hnd']; subst.
   apply IH; auto.
   intros r Hin. rewrite mp_map_inv_add by assumption.
-  destruct v as [|vc vr]; [discriminate|].
-  destruct r as [[[[f' p'] v'] q'] w'] eqn:Er. cbn [tgt]. rewrite mget_fm_add_set.
-  destruct (str_eqb_spec f' f) as [->|]; cbn [andb];
-    [destruct (str_eqb_spec q' q) as [->|]; cbn [andb];
-     [destruct (str_eqb_spec w' w) as [->|]|]|];
-    try (apply (Hfree (f', p', v', q', w')); now right);
-    try (apply (Hfree (f, p', v', q', w')); now right);
-    try (apply (Hfree (f, p', v', q, w')); now right).
-  exfalso. apply Hnin. cbn [tgt]. change (f, q, w) with (tgt (f, p', v', q, w)). now apply in_map.
+  destruct r as [[[[f' p'] v'] q'] w'] eqn:Er. cbn [tgt]. rewrite mget_fm_add.
+  destruct (str_eqb f' f && str_eqb q' q && str_eqb w' w) eqn:Ec.
+  - exfalso. apply andb_true_iff in Ec. destruct Ec as [Ec E3]. apply andb_true_iff in Ec. destruct Ec as [E1 E2].
+    apply str_eqb_eq in E1, E2, E3. subst f' q' w'.
+    apply Hnin. change (f, q, w) with (tgt (f, p', v', q, w)). now apply in_map.
+  - apply (Hfree (f', p', v', q', w')). now right.
 Qed.
 
-(* ------------------------------------------------------------------ _apply, by cases *)
+(* ------------------------------------------------------------------ apply, by cases *)
 
-Lemma apply1_hit m p v f q w : mget (mp_map m) f p v = Some (q, w) -> m_apply1 m p v f = (q, Some w).
-Proof.
-  intros H. rewrite m_apply1_mgroup. unfold mget, group_val in H.
-  destruct (mgroup (mp_map m) f p) as [vm|]; [|discriminate].
-  destruct vm as [|e vm]; [discriminate|]. now rewrite H.
-Qed.
+Lemma apply_exact m p v fl r : mget (mp_map m) fl p v = Some r -> m_apply m p v fl = r.
+Proof. intros H. rewrite m_apply_says. unfold fm_says, fm_find. now rewrite H. Qed.
 
-Lemma apply1_miss m p v f :
-  mget (mp_map m) f p v = None -> mget (mp_map m) f p s_any = None -> mgroup (mp_map m) f p <> Some [] ->
-  m_apply1 m p v f = (p, Some v).
+Lemma apply_fallback m p v fl r :
+  mget (mp_map m) fl p v = None -> mget (mp_map m) fl p s_any = None ->
+  mget (mp_map m) s_generic p v = Some r -> m_apply m p v fl = r.
 Proof.
-  intros H1 H2 H3. rewrite m_apply1_mgroup. unfold mget, group_val in H1, H2.
-  destruct (mgroup (mp_map m) f p) as [vm|]; [|reflexivity].
-  destruct vm as [|e vm]; [now elim H3|]. now rewrite H1, H2.
-Qed.
-
-Lemma apply1_cases m p v f :
-  mget (mp_map m) f p s_any = None ->
-  m_apply1 m p v f = (p, None) \/
-  (exists q w, mget (mp_map m) f p v = Some (q, w) /\ m_apply1 m p v f = (q, Some w)) \/
-  (mget (mp_map m) f p v = None /\ m_apply1 m p v f = (p, Some v)).
-Proof.
-  intros H2. rewrite m_apply1_mgroup. unfold mget, group_val in *.
-  destruct (mgroup (mp_map m) f p) as [vm|]; [|auto].
-  destruct vm as [|e vm]; [auto|]. rewrite H2.
-  destruct (alookup v (e :: vm)) as [[q w]|]; [|auto]. right. left. eauto.
+  intros H1 H2 H3. destruct (str_eqb_spec fl s_generic) as [->|Hg]; [congruence|].
+  rewrite m_apply_says. unfold fm_says, fm_find. rewrite H1, H2, H3.
+  destruct (str_eqb_spec fl s_generic); [contradiction|reflexivity].
 Qed.
 
 (* ------------------------------------------------------------------ inverse undoes apply *)
-
-Lemma same_pv_refl p v : same_pv (p, Some v) p v = true.
-Proof. cbn [same_pv]. now rewrite !str_eqb_refl. Qed.
 
 Lemma inverse_undoes_lemma m inv fl p v q w :
   fm_nodup (mp_map m) ->
   forallb invertible_row (m_rows m) = true ->
   m_inverse m = Ok inv ->
-  (forall p1 v1 p2 v2, in_dom m fl p1 v1 = true -> in_dom m fl p2 v2 = true ->
-     m_apply m p1 v1 fl = m_apply m p2 v2 fl -> p1 = p2 /\ v1 = v2) ->
+  (forall p1 v1 p2 v2 q0 w0, in_dom m fl p1 v1 = true -> in_dom m fl p2 v2 = true ->
+     m_apply m p1 v1 fl = (q0, Some w0) -> m_apply m p2 v2 fl = (q0, Some w0) -> p1 = p2 /\ v1 = v2) ->
   in_dom m fl p v = true ->
   m_apply m p v fl = (q, Some w) ->
   m_apply inv q w fl = (p, Some v).
 Proof.
   intros Hnd Hwf Hinv Hinj Hdom Happ.
-  destruct (inverse_fold _ _ _ Hwf Hinv) as [HI Hclean]. specialize (Hclean clean_empty).
-  assert (F1 : forall f p v q w, mget (mp_map m) f p v = Some (q, w) -> mget (mp_map inv) f q w = Some (p, v)).
-  { intros. apply HI. right. eauto using mget_In_rows. }
-  assert (F2 : forall f p v q w, mget (mp_map inv) f q w = Some (p, v) -> mget (mp_map m) f p v = Some (q, w)).
-  { intros f0 p0 v0 q0 w0 H. apply HI in H. destruct H as [H|[p' [v' [[= <- <-] H]]]]; [discriminate|].
-    now apply In_rows_mget. }
+  unfold m_inverse in Hinv. rewrite fold_live in Hinv.
+  pose proof (inverse_fold _ _ _ (lives_ok _ Hwf) Hinv) as HI.
+  assert (F1 : forall f p v q w, mget (mp_map m) f p v = Some (q, Some w) -> mget (mp_map inv) f q w = Some (p, Some v)).
+  { intros. apply HI. right. eexists _, _. split; [reflexivity|]. apply In_lives. now apply mget_In_rows. }
+  assert (F2 : forall f q w x, mget (mp_map inv) f q w = Some x ->
+                 exists p v, x = (p, Some v) /\ mget (mp_map m) f p v = Some (q, Some w)).
+  { intros f0 q0 w0 x H. apply HI in H. destruct H as [H|[p' [v' [-> H]]]]; [discriminate|].
+    exists p', v'. split; [reflexivity|]. apply In_lives in H. now apply In_rows_mget. }
   assert (F3 : forall f q, mget (mp_map inv) f q s_any = None).
-  { intros f0 q0. destruct (mget (mp_map inv) f0 q0 s_any) as [[p0 v0]|] eqn:E; [|reflexivity].
-    apply F2, mget_In_rows in E. apply (invertible_In _ _ Hwf) in E.
-    destruct (invertible_parts _ _ _ _ _ E) as [_ [_ [_ [E' _]]]]. now rewrite str_eqb_refl in E'. }
-  assert (F5 : forall f p, mget (mp_map m) f p s_any = None).
-  { intros f0 p0. destruct (mget (mp_map m) f0 p0 s_any) as [[q0 w0]|] eqn:E; [|reflexivity].
-    apply mget_In_rows in E. apply (invertible_In _ _ Hwf) in E.
-    destruct (invertible_parts _ _ _ _ _ E) as [_ [_ [E' _]]]. now rewrite str_eqb_refl in E'. }
-  assert (F6 : forall f p v q w, mget (mp_map m) f p v = Some (q, w) -> same_pv (q, Some w) p v = false).
-  { intros f0 p0 v0 q0 w0 E. apply mget_In_rows in E. apply (invertible_In _ _ Hwf) in E.
-    now destruct (invertible_parts _ _ _ _ _ E) as [_ [_ [_ [_ [_ E']]]]]. }
-  assert (F7 : forall f p v q w, mget (mp_map inv) f q w = Some (p, v) -> same_pv (p, Some v) q w = false).
-  { intros f0 p0 v0 q0 w0 E. apply F2, F6 in E. cbn [same_pv] in *.
-    now rewrite (str_eqb_sym p0 q0), (str_eqb_sym v0 w0). }
+  { intros f0 q0. destruct (mget (mp_map inv) f0 q0 s_any) as [x|] eqn:E; [|reflexivity].
+    destruct (F2 _ _ _ _ E) as [p0 [v0 [_ E']]]. apply mget_In_rows in E'. apply (invertible_In _ _ Hwf) in E'.
+    destruct (live_parts _ _ _ _ _ E') as [_ [_ [_ [E'' _]]]]. now rewrite str_eqb_refl in E''. }
+  assert (F5 : forall f p q w, mget (mp_map m) f p s_any = Some (q, Some w) -> False).
+  { intros f0 p0 q0 w0 E. apply mget_In_rows in E. apply (invertible_In _ _ Hwf) in E.
+    destruct (live_parts _ _ _ _ _ E) as [_ [_ [E'' _]]]. now rewrite str_eqb_refl in E''. }
   unfold in_dom in Hdom. rewrite !m_exists1_mget in Hdom.
-  unfold m_apply in Happ |- *.
-  destruct (str_eqb_spec fl s_generic) as [->|Hg]; cbn [negb andb] in Happ |- *.
-  - (* the generic table alone *)
-    destruct (mget (mp_map m) s_generic p v) as [[q' w']|] eqn:E; [|discriminate].
-    rewrite (apply1_hit _ _ _ _ _ _ E) in Happ. injection Happ as -> ->.
-    now apply apply1_hit, F1.
-  - destruct (mget (mp_map m) fl p v) as [[q' w']|] eqn:E.
-    + (* named by a row of the running flavor *)
-      rewrite (apply1_hit _ _ _ _ _ _ E), (F6 _ _ _ _ _ E) in Happ. injection Happ as -> ->.
-      apply F1 in E. rewrite (apply1_hit _ _ _ _ _ _ E), (F7 _ _ _ _ _ E). reflexivity.
+  destruct (mget (mp_map m) fl p v) as [r|] eqn:E.
+  - (* named by a row of the running flavor (or fl is generic) *)
+    rewrite (apply_exact _ _ _ _ _ E) in Happ. subst r.
+    apply F1 in E. now apply apply_exact.
+  - cbn [orb] in Hdom.
+    destruct (mget (mp_map m) s_generic p v) as [r|] eqn:Eg; [|discriminate].
+    destruct (str_eqb_spec fl s_generic) as [->|Hg]; [congruence|].
+    destruct (mget (mp_map m) fl p s_any) as [[q' [w'|]]|] eqn:Ea.
+    + exfalso. eapply F5; eauto.
+    + (* the flavor removes every version *)
+      rewrite m_apply_says in Happ. unfold fm_says, fm_find in Happ. rewrite E, Ea in Happ. discriminate.
     + (* named by a generic row only *)
-      cbn [orb] in Hdom.
-      destruct (mget (mp_map m) s_generic p v) as [[q' w']|] eqn:Eg; [|discriminate].
-      destruct (apply1_cases m p v fl (F5 _ _)) as [Hc|[[q0 [w0 [Hc _]]]|[_ Hc]]].
-      * rewrite Hc in Happ. cbn [same_pv] in Happ. discriminate.
-      * congruence.
-      * rewrite Hc, same_pv_refl, (apply1_hit _ _ _ _ _ _ Eg) in Happ. injection Happ as -> ->.
-        destruct (mget (mp_map inv) fl q w) as [[p2 v2]|] eqn:Ei.
-        -- exfalso. apply F2 in Ei.
-           assert (Hd2 : in_dom m fl p2 v2 = true) by (unfold in_dom; rewrite !m_exists1_mget, Ei; reflexivity).
-           assert (Hd1 : in_dom m fl p v = true) by (unfold in_dom; rewrite !m_exists1_mget, E, Eg; reflexivity).
-           assert (Ha2 : m_apply m p2 v2 fl = (q, Some w)).
-           { unfold m_apply. rewrite (apply1_hit _ _ _ _ _ _ Ei), (F6 _ _ _ _ _ Ei).
-             now rewrite andb_false_r. }
-           assert (Ha1 : m_apply m p v fl = (q, Some w)).
-           { unfold m_apply. rewrite Hc, same_pv_refl.
-             destruct (str_eqb_spec fl s_generic); [contradiction|]. cbn [negb andb].
-             now apply apply1_hit. }
-           destruct (Hinj _ _ _ _ Hd2 Hd1 (eq_trans Ha2 (eq_sym Ha1))) as [-> ->]. congruence.
-        -- rewrite (apply1_miss inv q w fl Ei (F3 _ _) (Hclean _ _)), same_pv_refl.
-           now apply apply1_hit, F1.
+      rewrite (apply_fallback _ _ _ _ _ E Ea Eg) in Happ. subst r.
+      pose proof (F1 _ _ _ _ _ Eg) as Eig.
+      destruct (mget (mp_map inv) fl q w) as [x|] eqn:Ei.
+      * exfalso. destruct (F2 _ _ _ _ Ei) as [p2 [v2 [-> E2]]].
+        assert (Hd2 : in_dom m fl p2 v2 = true) by (unfold in_dom; rewrite !m_exists1_mget, E2; reflexivity).
+        assert (Hd1 : in_dom m fl p v = true) by (unfold in_dom; rewrite !m_exists1_mget, E, Eg; reflexivity).
+        pose proof (apply_exact _ _ _ _ _ E2) as Ha2.
+        pose proof (apply_fallback _ _ _ _ _ E Ea Eg) as Ha1.
+        destruct (Hinj _ _ _ _ _ _ Hd2 Hd1 Ha2 Ha1) as [-> ->]. congruence.
+      * now apply apply_fallback.
 Qed.
 
 (* ------------------------------------------------------------------ inverse refuses / accepts *)
 
+Lemma lives_split R1 r1 R2 r2 R3 f1 p1 v1 q1 w1 f2 p2 v2 q2 w2 :
+  r1 = (f1, p1, v1, q1, Some w1) -> r2 = (f2, p2, v2, q2, Some w2) ->
+  lives (R1 ++ r1 :: R2 ++ r2 :: R3) =
+  (lives R1 ++ (f1, p1, v1, q1, w1) :: lives R2) ++ (f2, p2, v2, q2, w2) :: lives R3.
+Proof.
+  intros -> ->. rewrite lives_app. change (?a :: ?b) with ([a] ++ b) at 1. rewrite lives_app, lives_app.
+  change (?a :: ?b) with ([a] ++ b) at 1. rewrite lives_app. cbn [lives flat_map app].
+  now rewrite <- app_assoc.
+Qed.
+
 Lemma inverse_rejects_lemma m R1 r1 R2 r2 R3 :
   forallb invertible_row (m_rows m) = true ->
-  m_rows m = R1 ++ r1 :: R2 ++ r2 :: R3 -> tgt r1 = tgt r2 ->
+  m_rows m = R1 ++ r1 :: R2 ++ r2 :: R3 -> live_row r1 = true -> row_target r1 = row_target r2 ->
   m_inverse m = Err Refused.
 Proof.
-  intros Hwf Hsplit Htgt. unfold m_inverse. rewrite Hsplit in *.
-  replace (R1 ++ r1 :: R2 ++ r2 :: R3) with ((R1 ++ r1 :: R2) ++ r2 :: R3) in *
-    by (rewrite <- app_assoc; reflexivity).
+  intros Hwf Hsplit Hlive Htgt. unfold m_inverse. rewrite fold_live.
+  apply lives_ok in Hwf. rewrite Hsplit in *.
+  destruct r1 as [[[[f1 p1] v1] q1] [w1|]]; [|discriminate].
+  destruct r2 as [[[[f2 p2] v2] q2] w2o]. cbn [row_target] in Htgt. injection Htgt as <- <- <-.
+  pose proof (lives_split R1 _ R2 _ R3 f1 p1 v1 q1 w1 f1 p2 v2 q1 w1 eq_refl eq_refl) as HS.
+  rewrite HS in Hwf. rewrite HS.
   rewrite fold_left_app. rewrite forallb_app in Hwf. apply andb_true_iff in Hwf. destruct Hwf as [HA _].
-  destruct (fold_left inv_step (R1 ++ r1 :: R2) (Ok empty_mapping)) as [inv'|e] eqn:EA.
-  - destruct (inverse_fold _ _ _ HA EA) as [HI _].
-    destruct r1 as [[[[f1 p1] v1] q1] w1]. destruct r2 as [[[[f2 p2] v2] q2] w2].
-    cbn [tgt] in Htgt. injection Htgt as <- <- <-.
-    assert (E : mget (mp_map inv') f1 q1 w1 = Some (p1, v1)).
+  destruct (fold_left inv_stepL (lives R1 ++ (f1, p1, v1, q1, w1) :: lives R2) (Ok empty_mapping)) as [inv'|e] eqn:EA.
+  - pose proof (inverse_fold _ _ _ HA EA) as HI.
+    assert (E : mget (mp_map inv') f1 q1 w1 = Some (p1, Some v1)).
     { apply HI. right. exists p1, v1. split; auto. apply in_or_app. right. now left. }
-    cbn [fold_left inv_step]. rewrite m_exists1_mget, E. apply fold_err.
+    cbn [fold_left inv_stepL]. rewrite m_exists1_mget, E. apply fold_err.
   - rewrite fold_err. f_equal. eapply fold_refused; [|exact EA]. discriminate.
 Qed.
 
 Lemma inverse_accepts_lemma m :
-  forallb invertible_row (m_rows m) = true -> NoDup (map tgt (m_rows m)) ->
+  forallb invertible_row (m_rows m) = true -> NoDup (map tgt (lives (m_rows m))) ->
   exists inv, m_inverse m = Ok inv.
 Proof.
-  intros Hwf Hnd. apply fold_ok; auto. intros [[[[f p] v] q] w] _. reflexivity.
+  intros Hwf Hnd. unfold m_inverse. rewrite fold_live. apply fold_ok; auto using lives_ok.
+  intros [[[[f p] v] q] w] _. reflexivity.
+Qed.
+
+Lemma map_tgt_lives R : map (fun t => match t with (f, q, w) => (f, q, Some w) end) (map tgt (lives R)) =
+                        map row_target (filter live_row R).
+Proof.
+  induction R as [|[[[[f p] v] q] [w|]] R IH]; cbn [lives flat_map app filter live_row map]; [reflexivity| |].
+  - change (flat_map _ R) with (lives R). cbn [tgt row_target]. now rewrite IH.
+  - change (flat_map _ R) with (lives R). exact IH.
+Qed.
+
+Lemma NoDup_map_inv_inj {A B} (g : A -> B) l :
+  (forall x y, g x = g y -> x = y) -> NoDup (map g l) -> NoDup l.
+Proof.
+  intros Hg. induction l as [|x l IH]; cbn [map]; intros H; [constructor|].
+  inversion H; subst. constructor; [|auto]. intros Hin. apply H2. now apply in_map.
+Qed.
+
+Lemma NoDup_tgt_lives R : NoDup (map row_target (filter live_row R)) -> NoDup (map tgt (lives R)).
+Proof.
+  intros H. rewrite <- map_tgt_lives in H. eapply NoDup_map_inv_inj; [|exact H].
+  intros [[f q] w] [[f' q'] w'] [= -> -> ->]. reflexivity.
 Qed.
 
 (* ------------------------------------------------------------------ tables built by add have no duplicate keys *)
@@ -333,20 +333,6 @@ Proof.
     constructor; [|auto]. intros Hin. apply akeys_aset_In in Hin. destruct Hin; [congruence|auto].
 Qed.
 
-Lemma In_aremove {V} k (m : amap V) e : In e (aremove k m) -> In e m.
-Proof.
-  induction m as [|[k0 v0] m IH]; cbn [aremove]; [auto|].
-  destruct (str_eqb k k0); cbn [In]; intuition.
-Qed.
-
-Lemma NoDup_aremove {V} k (m : amap V) : NoDup (akeys m) -> NoDup (akeys (aremove k m)).
-Proof.
-  unfold akeys. induction m as [|[k0 v0] m IH]; cbn [aremove map fst]; intros H; [constructor|].
-  inversion H; subst. destruct (str_eqb k k0); cbn [map fst]; auto.
-  constructor; auto. intros Hin. apply H2. apply in_map_iff in Hin. destruct Hin as [e [E Hin]].
-  apply In_aremove in Hin. rewrite <- E. now apply in_map.
-Qed.
-
 Definition pm_nodup (pm : pmap) : Prop :=
   NoDup (akeys pm) /\ forall p vm, In (p, vm) pm -> NoDup (akeys vm).
 
@@ -367,14 +353,22 @@ Proof.
   - constructor.
 Qed.
 
+Lemma pm_nodup_aset pm p X : pm_nodup pm -> NoDup (akeys X) -> pm_nodup (aset p X pm).
+Proof.
+  intros [P1 P2] HX. split; [now apply NoDup_aset|].
+  intros p' vm Hp. apply In_aset in Hp. destruct Hp as [[-> ->]|Hp]; [assumption|now apply P2 in Hp].
+Qed.
+
+Lemma fm_nodup_aset fm f X : fm_nodup fm -> pm_nodup X -> fm_nodup (aset f X fm).
+Proof.
+  intros [N1 N2] HX. split; [now apply NoDup_aset|].
+  intros f' pm Hin. apply In_aset in Hin. destruct Hin as [[-> ->]|Hin]; [exact HX|now apply N2 in Hin].
+Qed.
+
 Lemma fm_nodup_set fm fl inP X :
   fm_nodup fm -> NoDup (akeys X) -> fm_nodup (aset fl (aset inP X (oget fl fm)) fm).
 Proof.
-  intros Hfm HX. pose proof (oget_pm_nodup fm fl Hfm) as [P1 P2]. destruct Hfm as [N1 N2].
-  split; [now apply NoDup_aset|].
-  intros f pm Hin. apply In_aset in Hin. destruct Hin as [[-> ->]|Hin]; [|now apply N2 in Hin].
-  split; [now apply NoDup_aset|].
-  intros p vm Hp. apply In_aset in Hp. destruct Hp as [[-> ->]|Hp]; [assumption|now apply P2 in Hp].
+  intros Hfm HX. apply fm_nodup_aset; [assumption|]. apply pm_nodup_aset; [now apply oget_pm_nodup|assumption].
 Qed.
 
 Lemma fm_nodup_fm_add fm inP inV outP outV fl ow :
@@ -382,24 +376,25 @@ Lemma fm_nodup_fm_add fm inP inV outP outV fl ow :
 Proof.
   intros H. unfold fm_add.
   pose proof (oget_vm_nodup _ inP (oget_pm_nodup fm fl H)) as HV.
-  destruct (negb ow && amem inV (oget inP (oget fl fm))); [now apply fm_nodup_set|].
-  destruct outV as [[|c w]|]; apply fm_nodup_set; auto using NoDup_aset, NoDup_aremove.
+  destruct (negb ow && amem inV (oget inP (oget fl fm))); apply fm_nodup_set; auto using NoDup_aset.
 Qed.
 
 Lemma fm_nodup_empty : fm_nodup [].
 Proof. split; [constructor|]. intros ? ? []. Qed.
 
+Lemma m_add_nodup m inP inV outP outV fl ow :
+  fm_nodup (mp_map m) -> fm_nodup (mp_map (m_add m inP inV outP outV fl ow)).
+Proof.
+  intros H. unfold m_add. destruct (is_noreinstall outV); cbn [mp_map]; [assumption|now apply fm_nodup_fm_add].
+Qed.
+
 Lemma m_of_rows_nodup rows : fm_nodup (mp_map (m_of_rows rows)).
 Proof.
   induction rows as [|r rows IH] using rev_ind; [apply fm_nodup_empty|].
-  rewrite m_of_rows_snoc, mp_map_add_row. destruct (is_noreinstall (r_outV r)); [assumption|].
-  now apply fm_nodup_fm_add.
+  rewrite m_of_rows_snoc. unfold add_row, add_row_ow. now apply m_add_nodup.
 Qed.
 
 (* ------------------------------------------------------------------ the decidable one-to-one condition *)
-
-Lemma tgt_row_target r : tgt r = row_target r.
-Proof. now destruct r as [[[[f p] v] q] w]. Qed.
 
 Lemma in_dom_list m fl p v : in_dom m fl p v = true -> In (p, v) (dom_list m fl).
 Proof.
@@ -417,13 +412,13 @@ Lemma res_eqb_refl a : res_eqb a a = true.
 Proof. destruct a as [q [w|]]; unfold res_eqb; cbn [fst snd]; now rewrite ?str_eqb_refl. Qed.
 
 Lemma one_to_one_inj m fl : one_to_one m fl = true ->
-  forall p1 v1 p2 v2, in_dom m fl p1 v1 = true -> in_dom m fl p2 v2 = true ->
-    m_apply m p1 v1 fl = m_apply m p2 v2 fl -> p1 = p2 /\ v1 = v2.
+  forall p1 v1 p2 v2 q w, in_dom m fl p1 v1 = true -> in_dom m fl p2 v2 = true ->
+    m_apply m p1 v1 fl = (q, Some w) -> m_apply m p2 v2 fl = (q, Some w) -> p1 = p2 /\ v1 = v2.
 Proof.
-  unfold one_to_one. intros H p1 v1 p2 v2 H1 H2 E.
+  unfold one_to_one. intros H p1 v1 p2 v2 q w H1 H2 E1 E2.
   rewrite forallb_forall in H. specialize (H _ (in_dom_list _ _ _ _ H1)).
   rewrite forallb_forall in H. specialize (H _ (in_dom_list _ _ _ _ H2)).
-  cbn [fst snd] in H. rewrite E, res_eqb_refl in H. cbn [implb] in H.
+  cbn [fst snd] in H. rewrite E1, E2, res_eqb_refl in H. cbn [implb] in H.
   unfold pv_eqb in H. cbn [fst snd] in H. apply andb_true_iff in H. destruct H as [Ha Hb].
   now apply str_eqb_eq in Ha, Hb.
 Qed.
